@@ -258,6 +258,7 @@ let parse_aop name (args : arg list) : aop =
   | "configure", [b] -> AConfigure (a_opt a_bool b)
   | "set_last_len", [l] -> ASetLastLen (a_opt a_nat l)
   | "set_trig", [k] -> ASetTrig (a_opt a_nat k)
+  | "set_max_nodes", [n] -> ASetMaxNodes (a_opt a_pos n)
   | "tape", [t] -> ATape (a_list (a_list a_pos) t)
   | "copy", [src; u] -> ACopy (a_nat src, a_nat u)
   | "shutdown", [] -> AShutdown
@@ -328,6 +329,9 @@ let a_hroots = function
   | L l -> HList (List.map a_nat l)
   | _ -> failwith "handle roots expected"
 
+(* the digest of the wrapped manager (with its `mx=` field, like a dd.bdd
+   manager: harness/impl.py prints `bdd._bdd.max_nodes` the same way) and the
+   handle table *)
 let show_adigest (d, hs) =
   let hs = List.map (fun (h, u) -> (int_of_nat h, int_of_z u)) hs in
   show_digest d ^ " handles=" ^ show_dict (fun (h, u) -> Printf.sprintf "%d:%d" h u) hs
